@@ -1789,7 +1789,7 @@ static int apply(void *vst, int op, bool check)
             /* setflowdef: a new dictionary is a new output definition (documented), the output is asked again */
             if (!strcmp(g_row->name, "setflowdef") && oi == 0 && (st->optmodel[oi] < 0 ? 0 : st->optmodel[oi]) != vi && st->flow != 0) {
                 st->om[0].ostate = OS_NONE;
-                sev_add(st, stamp0, -1, 1);
+                sev_add(st, stamp0, -1, 2);
             }
             st->optmodel[oi] = vi;
         }
@@ -2026,8 +2026,13 @@ static int final_check(void *vst)
                         for (int j = 0; j < i; j++)
                             if (fx->srec[j].sink == k && fx->srec[j].kind == PXS_FLOWDEF)
                                 def_stamp = fx->srec[j].stamp;
+                        /* A change of the input definition (what == 1) is judged by flow:stale-definition above: the
+                         * sink must hold the definition in force when the buffer was input. A change that was undone
+                         * before any buffer (F1, F2, F1) leaves the sink with the current definition; in a chain the
+                         * second pipe rightly does not repeat it (found by the depth-6 tier on skip>htons). */
                         for (int j = 0; j < st->nsev; j++)
-                            if (st->sev[j].stamp < g->stamp && st->sev[j].stamp > def_stamp && (st->sev[j].sink == k || st->sev[j].sink == -1))
+                            if (st->sev[j].what != 1 && st->sev[j].stamp < g->stamp && st->sev[j].stamp > def_stamp &&
+                                (st->sev[j].sink == k || st->sev[j].sink == -1))
                                 FAIL(st, st->sev[j].what ? "flow:no-definition-after-change" : "flow:no-definition-after-connect",
                                      "sink %d received buffer seq=%" PRId64 " without a new set_flow_def after %s", k, g->seq,
                                      st->sev[j].what ? "the flow definition changed" : "it was connected");
